@@ -51,7 +51,18 @@ def negate(fact: str) -> str:
     return c[0] if len(c) == 1 else "!" + fact
 
 
-def names_of_text(f: str) -> set[str]:
+_NAMES_CACHE: dict[str, frozenset[str]] = {}
+
+
+def names_of_text(f: str) -> frozenset[str]:
+    r = _NAMES_CACHE.get(f)
+    if r is None:
+        r = frozenset(_names_of_text_uncached(f))
+        _NAMES_CACHE[f] = r
+    return r
+
+
+def _names_of_text_uncached(f: str) -> set[str]:
     try:
         tree = ast.parse(f.lstrip("!"), mode="eval")
     except SyntaxError:
